@@ -119,6 +119,8 @@ class LoopMixin:
             return fs
 
         # ---- entry
+        self.loop_entry = getattr(self, 'loop_entry', [])
+        self.loop_entry.append((self.st.snapshot(), dict(self.frame_env(fr))))
         for cl, f in inv_formula(z3.IntVal(0)):
             self.oblige('invariant-entry', f'{name}: {cl.name} holds on entry', f, self.ct_props(cl.name))
         n = n_of()
@@ -128,6 +130,7 @@ class LoopMixin:
         for m in mods:
             v = self.fresh(f'lv_{m}')
             self.bound_ref(v)
+            self._add_axiom(v != smt.ABSENT)
             fr_owner = fr
             while m not in fr_owner.locals and fr_owner.parent is not None:
                 fr_owner = fr_owner.parent
@@ -193,8 +196,3 @@ class LoopMixin:
         ct = getattr(self, 'current_contract', None)
         return ct.props_of(clause_name) if ct is not None else ()
 
-    def havoc_ghost(self, g: str) -> None:
-        cur = self.st.ghost.get(g)
-        if cur is None:
-            return
-        self.st.ghost[g] = self.fresh(f'gh_{g}', cur.sort())
